@@ -136,6 +136,7 @@ func runProbes() {
 	}
 	probes = append(probes, crashProbe(idCrashNearbyBuffer, [][]string{{"SET", "k", "a", "POINT", "1", "2"}, {"NEARBY", "k", "BUFFER", "1", "POINT", "1", "2"}}))
 	exclNearbyBuffer = probes[len(probes)-1].reproduces
+	exclNonFinite = excl.nonFinite
 	probeResults = probes
 	mainTrio.dirty = true
 }
